@@ -45,7 +45,7 @@ def filterSetToks (ts : List Tok) (pos : Nat) (onlyLang : Bool) : List Tok :=
 
 /-- `parse_newline_option` (`markup_txt`: the text of verbatim material is no markup) -/
 def parseNewlineOption (T : PTables) (buf : Buf) (skip : Bool) : M Buf := do
-  let buf1 := if skip then (match lookAhead buf with
+  let buf1 := if skip then (match lookAheadSL buf with
                             | some t => if txtIsNV t "[" then skipSpace buf else buf
                             | none => buf) else buf
   match buf1 with
